@@ -246,7 +246,9 @@ impl<VM: VMBinding> crate::policy::gc_work::PolicyTraceObject<VM> for ImmixSpace
             } else {
                 self.trace_object_without_moving(queue, object)
             }
-        } else if KIND == TRACE_KIND_FAST {
+        } else if KIND == TRACE_KIND_FAST || KIND == DEFAULT_TRACE {
+            // DEFAULT_TRACE: this ImmixSpace is the non-moving space of a plan whose own trace kind is
+            // the default one (SemiSpace, GenCopy, MarkSweep, PageProtect). See `may_move_objects`.
             self.trace_object_without_moving(queue, object)
         } else {
             unreachable!()
